@@ -6,10 +6,15 @@
      rec   {n, k, deps}       record_access_and_get_dependencies(node n, kind k) returned deps
      pend  {pending}          into_pending_dependencies returned pending
 
-   The queue's contract is the property (C23): every event must be explained by the model with exactly the
-   recorded sets, so every rejection is a verdict.  The declarative contract (DepsExact, PendingExact) and the
-   representation invariant (CellExact) are evaluated on the replayed sequence as invariants.            *)
+   Strict = TRUE : every event must be explained by the model with exactly the recorded sets (the queue as
+                   built: last writer, plus for a write the reads since); a rejection is MODEL-DIVERGENCE.
+   Strict = FALSE: the recorded sets are adopted, and the *property* is judged on them as invariants
+                   (DepQueueTrace_lenient.cfg): ConflictsOrdered (every conflicting pair ordered, possibly
+                   transitively), DepsJustified (every reported dependency links a conflicting pair, under the
+                   right access type), ReadsUnordered.  A queue that reports fewer, but sufficient, dependencies
+                   (e.g. leaving out a write-to-write dependency implied by an intervening read) is accepted. *)
 EXTENDS DepQueueRun, Json, IOUtils
+CONSTANT Strict
 
 Rec == ndJsonDeserialize(IOEnv.TRACE)
 VARIABLE l
@@ -24,11 +29,18 @@ TReset == /\ IsEvent("reset")
           /\ inst' = Rec[l].inst /\ cell' = NewCell(Rec[l].inst) /\ hist' = <<>> /\ pending' = {}
           /\ qphase' = "run"
 TRec == /\ IsEvent("rec")
-        /\ Record(Rec[l].n, Rec[l].k)
-        /\ hist'[Len(hist')].deps = ToDeps(Rec[l].deps)
+        /\ IF Strict
+           THEN /\ Record(Rec[l].n, Rec[l].k)
+                /\ hist'[Len(hist')].deps = ToDeps(Rec[l].deps)
+           ELSE /\ qphase = "run" /\ Rec[l].k \in KindsOf(inst)
+                /\ hist' = Append(hist, [n |-> Rec[l].n, k |-> Rec[l].k, deps |-> ToDeps(Rec[l].deps)])
+                /\ cell' = After(cell, Rec[l].n, Rec[l].k)
+                /\ UNCHANGED <<inst, pending, qphase>>
 TPend == /\ IsEvent("pend")
-         /\ TakePending
-         /\ pending' = ToDeps(Rec[l].pending)
+         /\ IF Strict
+            THEN TakePending /\ pending' = ToDeps(Rec[l].pending)
+            ELSE /\ qphase = "run" /\ qphase' = "done" /\ pending' = ToDeps(Rec[l].pending)
+                 /\ UNCHANGED <<inst, cell, hist>>
 
 TNext == TReset \/ TRec \/ TPend
 TSpec == TInit /\ [][TNext]_tvars
